@@ -5,13 +5,18 @@ import (
 	"bufio"
 	"bytes"
 	"context"
+	"encoding/json"
 	"fmt"
+	"github.com/cloudwego/hertz/pkg/app/server"
 	"io"
 	"net/http"
+	"os"
+	"path/filepath"
 	"strconv"
 	"strings"
 	"sync"
 	"time"
+	"verif/harness/lib/loop"
 
 	"github.com/cloudwego/hertz/pkg/app"
 	"github.com/cloudwego/hertz/pkg/common/config"
@@ -93,12 +98,46 @@ type state struct {
 }
 
 func work(w *mon.W) {
+	var err error
+	if fileDir, err = os.MkdirTemp("", "verif-c04-"); err != nil {
+		w.Note("mkdtemp: " + err.Error())
+		return
+	}
+	defer os.RemoveAll(fileDir)
 	st := &state{}
 	opt := rig.Options(func(o *config.Options) {})
 	e := rig.NewEngine(opt, func(e *route.Engine) {
 		e.Any("/*p", func(c context.Context, ctx *app.RequestContext) { st.handle(ctx) })
 	})
-	w.Cases("conn", uint64(w.Pick(30000, 1200000)), func(c *mon.Case) { oneConn(w, c, e, st) })
+	w.Cases("conn", uint64(w.Pick(30000, 1200000)), func(c *mon.Case) { oneConn(w, c, e, st, nil) })
+	// the same programs on real servers over loopback TCP, standard and netpoll transport
+	// (the two transports have separate connection writers)
+	var lbs []*loop.Server
+	for _, np := range []bool{false, true} {
+		lb, err := loop.Start(np, func(h *server.Hertz) {
+			h.Any("/*p", func(c context.Context, ctx *app.RequestContext) { st.handle(ctx) })
+		})
+		if err != nil {
+			w.Note("loopback server did not start: " + err.Error())
+			continue
+		}
+		lbs = append(lbs, lb)
+	}
+	if len(lbs) == 2 {
+		bad := 0
+		w.Cases("loopback", uint64(w.Pick(1500, 40000)), func(c *mon.Case) {
+			if bad >= 3 {
+				return // every failing exchange costs a client-side timeout; three witnesses per worker are enough
+			}
+			oneConn(w, c, nil, st, lbs[c.I%2])
+			if c.Violated() {
+				bad++
+			}
+		})
+	}
+	for _, lb := range lbs {
+		lb.Stop()
+	}
 }
 
 func (st *state) handle(ctx *app.RequestContext) {
@@ -113,6 +152,10 @@ func (st *state) handle(ctx *app.RequestContext) {
 	p := st.cur[id]
 	st.mu.Unlock()
 	r := mon.NewRand(int64(p.Seed), uint64(id))
+	if p.Mode == "abortmsg" {
+		// AbortWithMsg resets the response first, so it comes before the header ops
+		ctx.AbortWithMsg(string(wire.PosBody(id, p.Size)), p.Status)
+	}
 	ctx.SetStatusCode(p.Status)
 	ctx.Response.Header.Set("X-Id", strconv.Itoa(id))
 	for _, h := range p.Hdrs {
@@ -130,6 +173,16 @@ func (st *state) handle(ctx *app.RequestContext) {
 		ctx.String(p.Status, "%s", b)
 	case "data":
 		ctx.Data(p.Status, "application/x-verif", b)
+	case "json":
+		ctx.JSON(p.Status, map[string]string{"k": string(b)})
+	case "redirect":
+		ctx.Redirect(p.Status, []byte("/to/"+strconv.Itoa(id)))
+	case "file":
+		ctx.File(filePath(p.Size))
+		ctx.SetStatusCode(p.Status)
+	case "abortmsg":
+	case "setbodyraw":
+		ctx.Response.SetBodyRaw(b)
 	case "append":
 		for _, n := range p.Writes {
 			if n < 0 {
@@ -175,16 +228,47 @@ func (st *state) handle(ctx *app.RequestContext) {
 	}
 }
 
-var modes = []string{"none", "setbody", "string", "data", "append", "stream-known", "stream-unknown", "stream-limited", "chunkw", "chunkw"}
-var statuses = []int{100, 101, 199, 200, 200, 201, 204, 206, 301, 304, 400, 404, 500, 599}
+var modes = []string{"none", "setbody", "string", "data", "append", "stream-known", "stream-unknown", "stream-limited", "chunkw", "chunkw", "json", "redirect", "file", "abortmsg", "setbodyraw"}
+
+// files of the sizes the programs use, created once per worker process
+var fileDir string
+
+func filePath(n int) string {
+	fp := filepath.Join(fileDir, fmt.Sprintf("f%d.bin", n))
+	if _, err := os.Stat(fp); err != nil {
+		os.WriteFile(fp, fileBody(n), 0o644)
+	}
+	return fp
+}
+
+func fileBody(n int) []byte { return wire.PosBody(77, n) }
+
+// wantBody: the body the program asks for (before the no-body rule)
+func wantBody(p prog, id int) []byte {
+	switch p.Mode {
+	case "none":
+		return nil
+	case "json":
+		b, _ := json.Marshal(map[string]string{"k": string(wire.PosBody(id, p.Size))})
+		return b
+	case "redirect":
+		return nil
+	case "file":
+		return fileBody(p.Size)
+	}
+	return wire.PosBody(id, p.Size)
+}
+
+var statuses = []int{100, 101, 199, 200, 200, 201, 204, 206, 301, 302, 307, 304, 400, 404, 500, 599}
 var sizes = []int{0, 1, 2, 4095, 4096, 4097, 8191, 8192, 8193, 70000}
 var methods = []string{"GET", "HEAD", "POST", "OPTIONS", "GET", "PUT"}
 
 func mustNoBody(p prog) bool {
-	return p.Status < 200 || p.Status == 204 || p.Status == 304 || p.Method == "HEAD"
+	st := wantStatus(p)
+	return st < 200 || st == 204 || st == 304 || p.Method == "HEAD"
 }
 
-func oneConn(w *mon.W, c *mon.Case, e *route.Engine, st *state) {
+func oneConn(w *mon.W, c *mon.Case, e *route.Engine, st *state, lb *loop.Server) {
 	r := c.R
 	n := 1 + r.Intn(5)
 	var progs []prog
@@ -232,8 +316,35 @@ func oneConn(w *mon.W, c *mon.Case, e *route.Engine, st *state) {
 	c.Detail = func() interface{} {
 		return map[string]interface{}{"programs": progs, "policy": policy}
 	}
-	sc := sconn.New(frags, sconn.EOF)
-	res := rig.Serve(e, sc, 4096, false, 20*time.Second)
+	var res *rig.Result
+	if lb != nil {
+		if len(frags) > 40 {
+			frags, policy = [][]byte{stream}, "whole"
+		}
+		complete := func(out []byte) bool {
+			off := 0
+			for i := 0; i < n; i++ {
+				_, noff, err := wire.ParseResponse(out, off, progs[i].Method, true)
+				if err != nil {
+					return false
+				}
+				off = noff
+			}
+			return true
+		}
+		out, closed, err := lb.Exchange(frags, 0, 4*time.Second, complete)
+		res = &rig.Result{Out: out, Closed: closed}
+		if err != nil && !closed && !complete(out) {
+			res.Hang = true
+		}
+		w.Count("loopback_connections", 1)
+		if lb.Netpoll {
+			w.Count("loopback_connections_netpoll", 1)
+		}
+	} else {
+		sc := sconn.New(frags, sconn.EOF)
+		res = rig.Serve(e, sc, 4096, false, 20*time.Second)
+	}
 	w.Count("connections", 1)
 	if res.Hang {
 		c.Violate("hang", "Serve did not finish")
@@ -280,7 +391,7 @@ func oneConn(w *mon.W, c *mon.Case, e *route.Engine, st *state) {
 			c.Violate("nethttp-body", "net/http body error on response %d (%s): %v (got %d bytes)", i, describe(p), err, len(got))
 			return
 		}
-		if rs.StatusCode != p.Status || !bytes.Equal(got, m.Body) {
+		if rs.StatusCode != wantStatus(p) || !bytes.Equal(got, m.Body) {
 			c.Violate("nethttp-disagree", "net/http decodes response %d (%s) to status %d body %d bytes; strict parser: status %d body %d bytes", i, describe(p), rs.StatusCode, len(got), m.Status, len(m.Body))
 			return
 		}
@@ -340,18 +451,35 @@ func trunc(s string, n int) string {
 	return s
 }
 
-var auto = map[string]bool{"Server": true, "Date": true, "Content-Type": true, "Content-Length": true, "Transfer-Encoding": true, "Connection": true, "Trailer": true, "X-Id": true}
+var auto = map[string]bool{"Location": true, "Last-Modified": true, "Accept-Ranges": true, "Server": true, "Date": true, "Content-Type": true, "Content-Length": true, "Transfer-Encoding": true, "Connection": true, "Trailer": true, "X-Id": true}
+
+// wantStatus: Redirect documents that a status which is not a redirect code becomes 302
+func wantStatus(p prog) int {
+	if p.Mode == "redirect" {
+		switch p.Status {
+		case 301, 302, 303, 307, 308:
+		default:
+			return 302
+		}
+	}
+	return p.Status
+}
 
 func compare(m *wire.Message, p prog, id int) string {
-	if m.Status != p.Status {
-		return fmt.Sprintf("status %d want %d", m.Status, p.Status)
+	if m.Status != wantStatus(p) {
+		return fmt.Sprintf("status %d want %d", m.Status, wantStatus(p))
 	}
 	if v, _ := m.Get("X-Id"); v != strconv.Itoa(id) {
 		return fmt.Sprintf("X-Id %q want %d (responses out of order?)", v, id)
 	}
-	want := wire.PosBody(id, p.Size)
-	if p.Mode == "none" || mustNoBody(p) {
+	want := wantBody(p, id)
+	if mustNoBody(p) {
 		want = nil
+	}
+	if p.Mode == "redirect" {
+		if loc, _ := m.Get("Location"); loc != "/to/"+strconv.Itoa(id) {
+			return fmt.Sprintf("Location %q want /to/%d", loc, id)
+		}
 	}
 	if !bytes.Equal(m.Body, want) {
 		return fmt.Sprintf("body %d bytes want %d (framing %s, chunks %v)", len(m.Body), len(want), m.Framing, trunc(fmt.Sprint(m.Chunks), 100))
